@@ -44,6 +44,17 @@ func (r *Runner) bashTest(ctx context.Context, expr syntax.TestExpr, classic boo
 				}
 			}
 			return ""
+		case syntax.AndTest:
+			// The right side is not expanded when the left side decides.
+			if r.bashTest(ctx, x.X, classic) == "" || r.bashTest(ctx, x.Y, classic) == "" {
+				return ""
+			}
+			return "1"
+		case syntax.OrTest:
+			if r.bashTest(ctx, x.X, classic) != "" || r.bashTest(ctx, x.Y, classic) != "" {
+				return "1"
+			}
+			return ""
 		}
 		if r.binTest(ctx, x.Op, r.bashTest(ctx, x.X, classic), r.bashTest(ctx, x.Y, classic)) {
 			return "1"
